@@ -654,6 +654,12 @@ impl Stdfs {
                     )?;
                 }
 
+                // A link is not a file: never write through a link at the destination (it may even point
+                // back to the source which would be truncated)
+                if Stdfs::is_symlink(&dst_path) {
+                    return Err(PathError::is_not_file(&dst_path).into());
+                }
+
                 // Copy over the file/link
                 fs::copy(src.path(), &dst_path)?;
 
